@@ -4,6 +4,8 @@
     each pass merges exactly its own hits, in order), checked by TLC; hit soundness and recall as operators, the
     optimal alignment score of the hit regions from AlignDP (spec/Align), itself proved equal to the maximum over
     all alignments by AlignMC (C08).
+    PalsSelf.tla: geometry of tubes, the merger's self-comparison guard and the aligner's band around the main
+    diagonal (negative control: the guard as found).
 (C) The real pipeline (Optimise, BuildIndex, Align(false), Align(true)) on random backgrounds of 2-6 kb (20 kb
     thorough) with 1-3 planted repeats (exact, substitutions, small indels, both strands, self and non-self):
     PalsTrace.tla judges every hit (bounds, lengths, error, score <= optimal global alignment of its regions for
@@ -31,12 +33,24 @@ def run(ck, tier):
     if r.violated != "MergeSeesOwnHitsInOrder":
         raise vlib.Infra("negative control (unsorted sorter) not refuted: %s" % r.violated)
     ck.mc("PalsNeg", r, "a sorter returning hits in any order is refuted")
+    r = vlib.tlc("Pals", "PalsSelf", "PalsSelfMC.cfg", workers=4, timeout=900)
+    vlib.tlc_expect_ok(r, "PalsSelfMC")
+    ck.mc("PalsSelfMC", r, "self comparison: no band given to the aligner contains the main diagonal; nothing further out is lost")
+    r = vlib.tlc("Pals", "PalsSelf", "PalsSelfNeg.cfg", workers=4, timeout=900)
+    if r.violated != "BandClearOfMainDiagonal":
+        raise vlib.Infra("negative control (merger margin = filter error only) not refuted: %s" % r.violated)
+    ck.mc("PalsSelfNeg", r, "as-found merger guard (margin = MaxError) refuted when MaxError < MaxIGap")
     work = vlib.scratch("c15-")
     try:
         p = os.path.join(work, "pals.ndjson")
         n = 1200 if thorough else 80
         vlib.harness(["run", "-n", n, "-len", 20000 if thorough else 6000, "-regions", 12 if thorough else 27, "-seed", ck.seed, "-out", p],
                      cmd="vpals", timeout=3400)
+        # self comparisons over runs of consecutive lengths with hits a few diagonals above the main one
+        ps = os.path.join(work, "selfsweep.ndjson")
+        vlib.harness(["selfsweep", "-n", 12 if thorough else 4, "-seed", ck.seed, "-out", ps], cmd="vpals", timeout=3400)
+        with open(p, "a") as f:
+            f.write(open(ps).read())
         v, r = vlib.validate("Pals", "PalsTrace", "PalsTrace.cfg", p, include=["Align"], timeout=3400)
         evs = vlib.read_ndjson(p)
         nh = sum(len(ps["hits"]) for e in evs for ps in e["passes"])
